@@ -120,7 +120,7 @@ var Props = map[string]*PropCfg{
 		Rule: "ReadFile reading through the simulated link. Inputs: every token string of length 1 and 2 over a 41-token vocabulary exhaustively (length 3 in the thorough tier), printed schemas in varied layouts (indent, CRLF, one-line, comments), the same torn at a random byte, with junk fragments inserted or appended (unterminated comments/strings, stray and non-UTF-8 bytes, partial tokens), token soup. Per input: one fault-free parse under a drawn chunk schedule with the completeness probe (accepted input + one fresh definition must fail or contain it), then a reader failure at EVERY byte offset (inputs <= 400 bytes; 64 sampled offsets beyond) bare, with partial data under a chunk schedule, and transiently, error values from a menu of 4 (wrapped io.EOF excluded). Oracles: no panic; step budget 2e5+200*len on the parser's loops; an error returned by the link => non-nil error from ReadFile; completeness; " +
 			"distinct_nontrivial counts distinct (input origin, outcome, schedule family) and (origin, fault kind, outcome) triples for faults that fired Extensions: semantic soup (well-formed definitions with arbitrary meaning: [flags] expressions over every literal and operator, out-of-range values, opcodes of any form, deep and unknown types) and LARGE inputs padded with comments to 2^16..2^22 bytes +-1; every string of 1..3 characters over the 13 characters number lexemes are made of (digits, e, E, +, -, ., x, _, f, i, n), bare and as a const value, exhaustively, and random lexeme soup in ten literal positions (const, enum value, message index, flag expression, opcode, string, deprecated text, comment, end of input); error menu also holds EAGAIN, wrapped EINTR, timeouts, deadlines and the io package's own errors.",
 		RandProgs: map[string]int{"quick": 20, "thorough": 80},
-		Runs:      map[string]int{"quick": 8000, "thorough": 90000},
+		Runs:      map[string]int{"quick": 11000, "thorough": 90000},
 		Params:    map[string]map[string]int{"thorough": {"tokens3": 1}},
 		Assume:    []string{"an io.Reader error that wraps io.EOF is not in the fault menu: whether that is an I/O error or an end of file is not settled by the property"},
 		RealStub:  map[string][]string{"real": {"tokenizer and parser of the working tree (instrumented: loop steps, map order)"}, "stub": {"the file: simnet link with chunk schedule and fault trace"}},
